@@ -87,10 +87,18 @@ def run_proto(base: str, case: dict) -> str:
     chunks = [data[i:j] for i, j in zip([0] + cuts, cuts + [len(data)])]
     tr = T.FakeTransport()
 
+    stall = case.get("stall")
+
     async def go():
         proto = GeminiServerProtocol(lambda r: GeminiResponse(status=20, meta="text/gemini", body="x"), None, h)
         proto.connection_made(tr)
-        for ch in chunks:
+        for i, ch in enumerate(chunks):
+            if stall is not None and i == stall + 1:
+                # the peer goes quiet for longer than the request timeout before sending the rest; what it sends afterwards
+                # still reaches data_received (sslproto's FLUSHING state reads once more after close())
+                asyncio.get_running_loop().advance(31)
+                for _ in range(3):
+                    await asyncio.sleep(0)
             proto.data_received(ch)
             for _ in range(3):
                 await asyncio.sleep(0)
@@ -102,7 +110,15 @@ def run_proto(base: str, case: dict) -> str:
 
     T.set_fault(case.get("fault"), case.get("tag", TAG))
     try:
-        asyncio.run(go())
+        if stall is None:
+            asyncio.run(go())
+        else:
+            from ..sim.srv import VLoop
+            loop = VLoop()
+            try:
+                loop.run_until_complete(go())
+            finally:
+                loop.close()
     finally:
         T.set_fault(None)
     if not tr.out:
@@ -449,8 +465,14 @@ def gen_request(rng: random.Random, ents, proto: bool):
         params.append("mime=image/png")
     elif mr < 0.92:
         params += ["mime=image/png", "mime=text/plain"]
-    else:
+    elif mr < 0.96:
         params.append(rng.choice(["mime= text/plain ", "mime=", "MIME=text/plain", "mime=text/gemini"]))
+    else:
+        # near misses of an allowed entry: extension, proper prefix, differing case, an encoded parameter, a path-like tail
+        base = rng.choice(cfg["types"] or ["text/plain"])
+        params.append("mime=" + rng.choice([base + "x", base + "+php", base + "%3Bcharset=utf-8", base + "/../x", base[:-1], base.split("/")[0], base.upper(),
+                                             base + " ", "x" + base, base + "/", "*/*", base.split("/")[0] + "/*"]))
+        cls += "+nearmime"
     tr = rng.random()
     want_tok = bool(cfg["tokens"])
     if tr < (0.6 if want_tok else 0.2):
@@ -596,8 +618,30 @@ class Proto(UploadFamily):
                 total = len(line.encode("utf-8")) + 2 + len(buf)
                 cuts = sorted(rng.sample(range(1, max(total, 2)), k=min(rng.choice([0, 0, 1, 2, 4]), max(total - 1, 0))))
                 case = {"tree": ents, "cfg": cfg, "line": line, "content": hexs(buf), "fault": gen_fault(rng, eff), "cls": cls + "+" + cls2, "cuts": cuts}
+                late = [k for k, c in enumerate(cuts) if c >= len(line.encode("utf-8")) + 2]
+                if late and rng.random() < 0.5:
+                    # the peer stalls past the request timeout at one of the cuts inside the content
+                    case["stall"] = rng.choice(late)
+                    case["cls"] += "+stall"
                 yield case
                 count += 1
+
+    def _before_stall(self, case):
+        cut = sorted(set(c for c in case.get("cuts", []) if 0 < c < len(case["line"].encode("utf-8")) + 2 + len(case["content"]) // 2))[case["stall"]]
+        c = dict(case)
+        c["content"] = case["content"][: 2 * (cut - len(case["line"].encode("utf-8")) - 2)]
+        return c
+
+    def model(self, case):
+        # what had arrived when the peer went quiet decides: a complete request was dispatched (what follows is ignored,
+        # C07), an incomplete one is answered 40 at the deadline and what follows is ignored as well
+        return super().model(self._before_stall(case) if case.get("stall") is not None else case)
+
+    def expect(self, case, out):
+        e = super().expect(case, out)
+        if case.get("stall") is not None and e.get("status") == "pending":
+            return {"status": "40", "diff": []}
+        return e
 
 
 FAMILIES = [Direct(), Proto()]
